@@ -1,6 +1,7 @@
 //! `sock`: the socket-backed sinks on real local sockets (127.0.0.1 UDP, Unix datagram in a temp dir).
 //!
 //! case:  U  <b|n> <q0|q1> <ops>        UdpMetricSink (blocking / non-blocking socket; q1 = behind a QueuingMetricSink)
+//!        US / UT, BUS / BUT           the same sinks with the destination given as "host:port" / as (host, port)
 //!        X  <b|n> <q0|q1> <ops>        UnixMetricSink
 //!        BU <cap|d> <q0|q1> <ops>      BufferedUdpMetricSink (d = default capacity)
 //!        BX <cap|d> <q0|q1> <ops>      BufferedUnixMetricSink
@@ -254,9 +255,15 @@ fn cap_of(s: &str) -> Option<usize> {
 pub fn run_case(line: &str) -> String {
     let t: Vec<&str> = line.split_whitespace().collect();
     match t[0] {
-        "U" => {
+        "U" | "US" | "UT" => {
+            // the destination given as a SocketAddr, as a "host:port" string, or as a (host, port) pair
             let (recv, send, addr) = udp_pair(t[1] == "n");
-            let sink = UdpMetricSink::from(addr, send).expect("sink");
+            let sink = match t[0] {
+                "US" => UdpMetricSink::from(format!("127.0.0.1:{}", addr.port()).as_str(), send),
+                "UT" => UdpMetricSink::from(("127.0.0.1", addr.port()), send),
+                _ => UdpMetricSink::from(addr, send),
+            }
+            .expect("sink");
             run_ops(AnySink::wrap(sink, t[2] == "q1"), &mut Recv::Udp(recv), t[3], t[2] == "q1")
         }
         "X" => {
@@ -264,12 +271,18 @@ pub fn run_case(line: &str) -> String {
             let sink = UnixMetricSink::from(&p, send);
             run_ops(AnySink::wrap(sink, t[2] == "q1"), &mut Recv::Unix(Some(recv), p), t[3], t[2] == "q1")
         }
-        "BU" => {
+        "BU" | "BUS" | "BUT" => {
             let (recv, send, addr) = udp_pair(false);
-            let sink = match cap_of(t[1]) {
-                None => BufferedUdpMetricSink::from(addr, send).expect("sink"),
-                Some(c) => BufferedUdpMetricSink::with_capacity(addr, send, c).expect("sink"),
-            };
+            let host = format!("127.0.0.1:{}", addr.port());
+            let sink = match (t[0], cap_of(t[1])) {
+                ("BUS", None) => BufferedUdpMetricSink::from(host.as_str(), send),
+                ("BUS", Some(c)) => BufferedUdpMetricSink::with_capacity(host.as_str(), send, c),
+                ("BUT", None) => BufferedUdpMetricSink::from(("127.0.0.1", addr.port()), send),
+                ("BUT", Some(c)) => BufferedUdpMetricSink::with_capacity(("127.0.0.1", addr.port()), send, c),
+                (_, None) => BufferedUdpMetricSink::from(addr, send),
+                (_, Some(c)) => BufferedUdpMetricSink::with_capacity(addr, send, c),
+            }
+            .expect("sink");
             run_ops(AnySink::wrap(sink, t[2] == "q1"), &mut Recv::Udp(recv), t[3], t[2] == "q1")
         }
         "BX" => {
